@@ -42,6 +42,21 @@ def worker(w):
             sh("git -C %s reset -q --hard; git -C %s clean -fdq" % (wt, wt))
             r = sh("git -C %s apply %s" % (wt, os.path.join(d, "patch.diff")))
             if r.returncode != 0:
+                # the tree moved on under the patch (a later fix: commit touched the same lines): merge it three-way from the blobs the patch names and, when
+                # that is clean, store the rebased patch (the change itself is the same; recorded in meta.json)
+                sh("git -C %s reset -q --hard" % wt)
+                r3 = sh("git -C %s apply --3way %s" % (wt, os.path.join(d, "patch.diff")))
+                conflict = sh("git -C %s diff --name-only --diff-filter=U" % wt).stdout.strip()
+                if r3.returncode == 0 and not conflict:
+                    sh("git -C %s reset -q" % wt)
+                    newp = sh("git -C %s diff" % wt).stdout
+                    if newp.strip():
+                        open(os.path.join(d, "patch.diff"), "w").write(newp)
+                        m["rebased"] = "patch.diff rebased onto /repo %s with git apply --3way (a later fix: commit touched the same lines)" % sh("git -C /repo rev-parse --short HEAD").stdout.strip()
+                        r = r3
+                else:
+                    sh("git -C %s reset -q --hard" % wt)
+            if r.returncode != 0:
                 with lock:
                     print("%s: PATCH DOES NOT APPLY %s" % (sid, r.stdout.strip()[:200]), flush=True)
                 continue
